@@ -137,3 +137,146 @@ pub proof fn lemma_refund_upper(reserve: nat, amount: nat, supply: nat)
 }
 
 } // verus!
+verus! {
+// ---------------------------------------------------------------- provide_liquidity
+/// result of the (assumed deterministic) stableswap LP mint computation
+pub uninterp spec fn ss_mint_spec(amp: u64, old_assets: Seq<Coin>, new_assets: Seq<Coin>, supply: Uint128, p: PoolInfo) -> Result<Option<Uint128>, ContractError>;
+
+/// C02: constant-product mint on a funded pool: min over the two deposits of floor(deposit * supply / reserve)
+pub open spec fn cp_share_of(dep: nat, supply: nat, reserve: nat) -> nat { (dep * supply) / reserve }
+
+/// every pool asset's reserve grew by exactly the attached amount of its denom (0 if none attached)
+pub open spec fn reserves_plus_funds(old_p: PoolInfo, new_p: PoolInfo, funds: Seq<Coin>) -> bool {
+    pool_static_eq(old_p, new_p) && old_p.status == new_p.status
+    && forall|j: int| 0 <= j < old_p.assets@.len() ==> (#[trigger] new_p.assets@[j]).amount@ == old_p.assets@[j].amount@ + coin_sum(funds, old_p.assets@[j].denom@)
+}
+
+pub open spec fn wasm_to(m: CosmosMsg, addr: Seq<char>) -> bool {
+    match m { CosmosMsg::Wasm(w) => w.contract_addr@ == addr, _ => false }
+}
+pub open spec fn wasm_funds_one(m: CosmosMsg, denom: Seq<char>, amount: nat) -> bool {
+    match m { CosmosMsg::Wasm(w) => w.funds@.len() == 1 && w.funds@[0].denom@ == denom && w.funds@[0].amount@ == amount, _ => false }
+}
+
+/// first leg of a single-asset deposit: the self-Swap sub-message (reply on success, id 1) carrying exactly `half`
+pub open spec fn single_side_swap_submsg(m: SubMsg, contract: Seq<char>, half: Coin, ask: Seq<char>, max: Option<Decimal>, pool_id: Seq<char>) -> bool {
+    m.id == 1 && m.reply_on == ReplyOn::Success
+    && (match m.msg {
+        CosmosMsg::Wasm(w) => w.contract_addr@ == contract && w.funds@.len() == 1 && w.funds@[0] == half
+            && (match w.payload {
+                WasmPayload::Pm(ExecuteMsg::Swap { ask_asset_denom, belief_price, max_slippage, receiver, pool_identifier }) =>
+                    ask_asset_denom@ == ask && belief_price is None && max_slippage == max && receiver is None && pool_identifier@ == pool_id,
+                _ => false,
+            }),
+        _ => false,
+    })
+}
+
+pub proof fn lemma_coin_sum_take_all(s: Seq<Coin>, d: Seq<char>)
+    ensures coin_sum(s.take(s.len() as int), d) == coin_sum(s, d),
+{
+    assert(s.take(s.len() as int) =~= s);
+}
+pub proof fn lemma_coin_sum_take_step(s: Seq<Coin>, i: int, d: Seq<char>)
+    requires 0 <= i < s.len(),
+    ensures coin_sum(s.take(i + 1), d) == coin_sum(s.take(i), d) + (if s[i].denom@ == d { s[i].amount@ } else { 0 }),
+{
+    assert(s.take(i + 1).drop_last() =~= s.take(i));
+}
+
+pub open spec fn all_same_denom(funds: Seq<Coin>) -> bool { forall|k: int| 0 <= k < funds.len() ==> (#[trigger] funds[k]).denom@ == funds[0].denom@ }
+/// `agg` is the aggregation of `funds` (as specified for aggregate_coins)
+pub open spec fn is_aggregation(funds: Seq<Coin>, agg: Seq<Coin>) -> bool {
+    denoms_distinct(agg)
+    && (forall|d: Seq<char>| coin_sum(agg, d) == #[trigger] coin_sum(funds, d))
+    && (forall|i: int| 0 <= i < agg.len() ==> has_denom(funds, #[trigger] agg[i].denom@))
+    && (forall|k: int| 0 <= k < funds.len() ==> has_denom(agg, #[trigger] funds[k].denom@))
+    && (funds.len() > 0 ==> agg.len() > 0) && agg.len() <= funds.len()
+}
+pub proof fn lemma_agg_single(funds: Seq<Coin>, agg: Seq<Coin>)
+    requires is_aggregation(funds, agg), funds.len() > 0,
+    ensures (agg.len() == 1) == all_same_denom(funds),
+        agg.len() == 1 ==> agg[0].denom@ == funds[0].denom@ && agg[0].amount@ == coin_sum(funds, funds[0].denom@),
+{
+    if agg.len() == 1 {
+        assert forall|k: int| 0 <= k < funds.len() implies (#[trigger] funds[k]).denom@ == funds[0].denom@ by {
+            assert(has_denom(agg, funds[k].denom@));
+            assert(has_denom(agg, funds[0].denom@));
+        }
+        assert(has_denom(agg, funds[0].denom@));
+        lemma_coin_sum_distinct(agg, 0);
+    }
+    if all_same_denom(funds) {
+        if agg.len() >= 2 {
+            assert(has_denom(funds, agg[0].denom@));
+            assert(has_denom(funds, agg[1].denom@));
+            assert(agg[0].denom@ != agg[1].denom@);
+        }
+    }
+}
+/// denoms of an aggregation that are pool assets: the attached coins are pool assets too
+pub proof fn lemma_funds_in_pool(p: PoolInfo, funds: Seq<Coin>, agg: Seq<Coin>)
+    requires is_aggregation(funds, agg), forall|i: int| 0 <= i < agg.len() ==> has_denom(p.assets@, #[trigger] agg[i].denom@),
+    ensures forall|k: int| 0 <= k < funds.len() ==> has_asset(p, #[trigger] funds[k].denom@),
+{
+    assert forall|k: int| 0 <= k < funds.len() implies has_asset(p, #[trigger] funds[k].denom@) by {
+        assert(has_denom(agg, funds[k].denom@));
+        let i = choose|i: int| 0 <= i < agg.len() && #[trigger] agg[i].denom@ == funds[k].denom@;
+        assert(has_denom(p.assets@, agg[i].denom@));
+    }
+}
+
+/// LP amount minted for the depositor: carried by the last mint message (before the farm-manager call when locking)
+pub open spec fn user_shares(ms: Seq<SubMsg>, lock: bool) -> nat {
+    let k = if lock { ms.len() - 2 } else { ms.len() - 1 };
+    match ms[k].msg { CosmosMsg::Tf(TfMsg::Mint { sender, amount, mint_to }) => amount.amount@, _ => 0 }
+}
+/// C01/C02/C08: exact message list of a two-sided deposit
+pub open spec fn deposit_msgs_ok(ms: Seq<SubMsg>, lp: Seq<char>, contract: Seq<char>, receiver: Seq<char>, fm: Seq<char>,
+    first: bool, min_liq: nat, lock: bool) -> bool {
+    let n_first: int = if first { 1 } else { 0 };
+    let n_rest: int = if lock { 2 } else { 1 };
+    ms.len() == n_first + n_rest
+    && (forall|i: int| 0 <= i < ms.len() ==> plain(#[trigger] ms[i]))
+    && (first ==> tf_mint_msg(lp, min_liq, contract, ms[0].msg))
+    && (!lock ==> tf_mint_msg(lp, user_shares(ms, lock), receiver, ms[n_first].msg))
+    && (lock ==> tf_mint_msg(lp, user_shares(ms, lock), contract, ms[n_first].msg)
+        && wasm_to(ms[n_first + 1].msg, fm) && wasm_funds_one(ms[n_first + 1].msg, lp, user_shares(ms, lock)))
+}
+/// the farm-manager call of a locked deposit: Expand{identifier} of an existing position, or Create{.., receiver: Some(receiver)}
+pub open spec fn lock_call_ok(m: CosmosMsg, receiver: Seq<char>, unlocking_duration: u64, lock_id: Option<Str>) -> bool {
+    match m {
+        CosmosMsg::Wasm(w) => match w.payload {
+            WasmPayload::Fm(FmExecuteMsg::ManagePosition { action }) => match action {
+                FmPositionAction::Expand { identifier } => lock_id is Some && identifier@ == lock_id->Some_0@,
+                FmPositionAction::Create { identifier, unlocking_duration: ud, receiver: r } =>
+                    ud == unlocking_duration && r is Some && r->Some_0@ == receiver
+                    && (match lock_id { Some(i) => identifier is Some && identifier->Some_0@ == i@, None => identifier is None }),
+                _ => false,
+            },
+            _ => false,
+        },
+        _ => false,
+    }
+}
+
+/// a two-sided deposit into a two-asset pool: the aggregated deposits are exactly the two pool denoms (in some order)
+pub proof fn lemma_two_deposits(p: PoolInfo, funds: Seq<Coin>, agg: Seq<Coin>)
+    requires pool_wf(p), p.assets@.len() == 2, is_aggregation(funds, agg), agg.len() >= 2,
+        forall|i: int| 0 <= i < agg.len() ==> has_denom(p.assets@, #[trigger] agg[i].denom@),
+    ensures agg.len() == 2,
+        (agg[0].denom@ == p.assets@[0].denom@ && agg[1].denom@ == p.assets@[1].denom@) || (agg[0].denom@ == p.assets@[1].denom@ && agg[1].denom@ == p.assets@[0].denom@),
+        agg[0].amount@ == coin_sum(funds, agg[0].denom@), agg[1].amount@ == coin_sum(funds, agg[1].denom@),
+{
+    assert(has_denom(p.assets@, agg[0].denom@));
+    assert(has_denom(p.assets@, agg[1].denom@));
+    assert(agg[0].denom@ != agg[1].denom@);
+    if agg.len() >= 3 {
+        assert(has_denom(p.assets@, agg[2].denom@));
+        assert(agg[0].denom@ != agg[2].denom@);
+        assert(agg[1].denom@ != agg[2].denom@);
+    }
+    lemma_coin_sum_distinct(agg, 0);
+    lemma_coin_sum_distinct(agg, 1);
+}
+} // verus!
